@@ -1282,6 +1282,9 @@ pub fn run() {
   }
   // the service processes are ended before the report is written (finish() leaves the process without unwinding)
   drop(servers);
+  let (conc_exec, conc_scen) = family_concurrent(&run, thorough);
+  run.set("concurrent_request_scenarios", json!(conc_scen));
+  run.set("concurrent_request_interleavings", json!(conc_exec));
   run.set("states", json!(protocol_sequences + cases.len()));
   run.set("transitions", json!(cnt.requests.load(Ordering::Relaxed)));
   run.set("traces_validated_against_impl", json!(cnt.compared.load(Ordering::Relaxed)));
@@ -1297,7 +1300,91 @@ pub fn run() {
   run.finish();
 }
 
+/// Concurrent requests: the request handlers of the instrumented copy of the server called from two or three threads
+/// under loom (harness/loomh/src/srv.rs); every interleaving within the preemption bound must answer like one sequential
+/// order of the same requests. Request table: 0 add(A, already stored) 1 add(B) 2 replace(A by A2) 3 remove(A) 4 clear
+/// 5 deploy 6 evaluate A {x} 7 tck evaluate A 8 evaluate B 9 evaluate A {y}
+pub const CONCURRENT_PLANS_QUICK: &[&str] = &["0/6", "5/6", "4/6/7", "2,5/6,9", "1,5/6,8", "3/6,9", "5/6/7"];
+pub const CONCURRENT_PLANS_THOROUGH: &[&str] = &["2,5/6,9/7", "4,0,5/6,9", "1,5,3/8,6", "2,5/2,5/6", "0,5/3,5/6,9"];
+
+fn run_concurrent(root: &str, plan: &str, bound: &str) -> Result<(u64, u64, String), (String, String)> {
+  let out = std::process::Command::new(format!("{}/target/loom/release/loomsrv", root))
+    .arg(plan)
+    .env("TZ", "UTC")
+    .env("LOOM_MAX_PREEMPTIONS", bound)
+    .env("LOOM_MAX_BRANCHES", "1000000")
+    .env("LOOM_MAX_DURATION", "600")
+    .env("RUST_BACKTRACE", "0")
+    .output()
+    .map_err(|e| ("machinery".to_string(), format!("loom harness could not be run: {}", e)))?;
+  let stdout = String::from_utf8_lossy(&out.stdout).into_owned();
+  let stderr = String::from_utf8_lossy(&out.stderr).into_owned();
+  if out.status.success() {
+    let num = |key: &str| stdout.lines().find_map(|l| l.strip_prefix(key).and_then(|v| v.trim().parse::<u64>().ok())).unwrap_or(0);
+    if num("ELAPSED ") >= 600 {
+      return Err(("machinery".to_string(), format!("scenario {} was cut by loom's time cap", plan)));
+    }
+    return Ok((num("EXECUTIONS "), num("OUTCOMES "), stdout.lines().find(|l| l.starts_with("SEQUENTIAL")).unwrap_or("").to_string()));
+  }
+  if let Some(l) = stderr.lines().find(|l| l.starts_with("MISMATCH")) {
+    let class = if l.contains("after the concurrent requests") { "service-does-not-answer-afterwards" } else { "responses-of-no-sequential-order" };
+    return Err((class.to_string(), l.chars().take(900).collect()));
+  }
+  if let Some(l) = stderr.lines().find(|l| l.contains("deadlock")) {
+    return Err(("deadlock".to_string(), l.trim().to_string()));
+  }
+  if let Some(l) = stderr.lines().find(|l| l.contains("panicked at")) {
+    let next = stderr.lines().skip_while(|x| !x.contains("panicked at")).nth(1).unwrap_or("");
+    return Err(("panic-in-a-request-handler".to_string(), format!("{} {}", l.trim(), next.trim())));
+  }
+  Err(("machinery".to_string(), format!("loom harness ended abnormally: {}", stderr.lines().rev().take(4).collect::<Vec<_>>().join(" | "))))
+}
+
+fn family_concurrent(run: &Run, thorough: bool) -> (u64, u64) {
+  if crate::engines::c20::prepare(run).is_none() {
+    return (0, 0);
+  }
+  let root = crate::report::root();
+  let bound = if thorough { "3" } else { "2" };
+  let mut plans: Vec<&str> = CONCURRENT_PLANS_QUICK.to_vec();
+  if thorough {
+    plans.extend(CONCURRENT_PLANS_THOROUGH);
+  }
+  let results: Vec<(&str, Result<(u64, u64, String), (String, String)>)> = plans.par_iter().map(|p| (*p, run_concurrent(&root, p, bound))).collect();
+  let mut executions = 0u64;
+  for (plan, r) in &results {
+    match r {
+      Ok((ex, outcomes, seq)) => {
+        executions += ex;
+        run.outcome(&format!("concurrent:{}:{}-distinct-response-vectors", plan, outcomes));
+        if *plan == "2,5/6,9" {
+          run.sample(json!({"concurrent_requests": plan, "preemption_bound": bound, "interleavings": ex, "distinct_response_vectors": outcomes, "sequential": seq}));
+        }
+      }
+      Err((class, detail)) if class == "machinery" => run.machinery_error(detail),
+      Err((class, detail)) => run.violation(
+        &format!("concurrent-requests:{}", class),
+        &format!("requests {} from concurrent clients (preemption bound {}): {}", plan, bound, detail),
+        json!({"engine":"c18","kind":"concurrent","plan":plan,"preemption_bound":bound}),
+      ),
+    }
+  }
+  (executions, plans.len() as u64)
+}
+
 pub fn replay_case(case: &serde_json::Value) -> String {
+  if case.get("kind").and_then(|k| k.as_str()) == Some("concurrent") {
+    let plan = case.get("plan").and_then(|p| p.as_str()).unwrap_or("0/6");
+    let bound = case.get("preemption_bound").and_then(|p| p.as_str()).unwrap_or("2");
+    let root = crate::report::root();
+    let _ = std::process::Command::new("python3").arg(format!("{}/bin/instr_c20.py", root)).env("VERIF_ROOT", &root).output();
+    let _ = std::process::Command::new("cargo").args(["build", "--release", "--offline", "--quiet"]).current_dir(format!("{}/harness/loomh", root)).env_remove("CARGO_TARGET_DIR").output();
+    return match run_concurrent(&root, plan, bound) {
+      Ok((ex, outcomes, _)) => format!("PASS requests {} hold: {} interleavings, {} distinct response vectors", plan, ex, outcomes),
+      Err((class, detail)) if class == "machinery" => format!("MACHINERY {}", detail),
+      Err((class, detail)) => format!("FAIL requests {}: {} {}", plan, class, detail),
+    };
+  }
   let server = match start_server() {
     Ok(s) => s,
     Err(e) => return format!("MACHINERY {}", e),
